@@ -109,7 +109,9 @@ def gen_program(rng, display):
             elif r < 0.52:
                 ops.append(["log", pid])
             elif r < 0.64:
-                ops.append(["capture", pid])
+                # (one capture in four is opened with output of the same thread still pending: inside a `with console:`
+                # batch that has already printed something)
+                ops.append(["capture", pid] if rng.random() < 0.75 else ["batch_capture", pid, "T%d.%d" % (th, i + 5)])
             elif display.startswith("live"):
                 if r < 0.85:
                     fid += 1
@@ -320,6 +322,12 @@ def execute(ctx, prog, display, terminal, firings, height, strategy, strat_kind,
             with console.capture() as cap:
                 console.print(Text("\n".join(payload_lines(op[1], 2))))
             captures[op[1]] = cap.get()
+        elif k == "batch_capture":
+            with console:
+                console.print(Text("\n".join(payload_lines(op[2], 1))))
+                with console.capture() as cap:
+                    console.print(Text("\n".join(payload_lines(op[1], 2))))
+                captures[op[1]] = cap.get()
         elif k == "print_same":
             console.print(Text("S:same"))
         elif k == "capture_same":
@@ -393,8 +401,8 @@ def execute(ctx, prog, display, terminal, firings, height, strategy, strat_kind,
     writers = set()
     for th, ops in enumerate(prog):
         for op in ops:
-            if op[0] in ("print", "log", "pyprint"):
-                pid = op[1]
+            if op[0] in ("print", "log", "pyprint", "batch_capture"):
+                pid = op[2] if op[0] == "batch_capture" else op[1]
                 b, e = "B:%s" % pid, "E:%s" % pid
                 nb, ne = len(re.findall(re.escape(b) + r"(?!\d)", text)), len(re.findall(re.escape(e) + r"(?!\d)", text))
                 if nb != 1 or ne != 1:
@@ -447,7 +455,7 @@ def execute(ctx, prog, display, terminal, firings, height, strategy, strat_kind,
     ctx.count("mon.capture_isolation")
     for th, ops in enumerate(prog):
         for op in ops:
-            if op[0] == "capture":
+            if op[0] in ("capture", "batch_capture"):
                 pid = op[1]
                 got = captures.get(pid)
                 if got is None:
@@ -506,7 +514,7 @@ def execute(ctx, prog, display, terminal, firings, height, strategy, strat_kind,
         frame_on_screen = [t for l in got for t in _FRAME.findall(l)]
         tainted = taint(events, file.writes)
         ctx.hist("print_vs_refresh_window_hit", "yes" if tainted else "no")
-        captured_while_live = any(op[0] in ("capture", "capture_same") for ops in prog for op in ops)
+        captured_while_live = any(op[0] in ("capture", "capture_same", "batch_capture") for ops in prog for op in ops)
         ctx.hist("capture_while_live", "yes" if captured_while_live else "no")
         tall = any(len(v) >= console.size.height for v in frames.values())
         if tall:
@@ -558,7 +566,7 @@ def execute(ctx, prog, display, terminal, firings, height, strategy, strat_kind,
                 last = ks
         tainted = taint(events, file.writes)
         ctx.hist("print_vs_refresh_window_hit", "yes" if tainted else "no")
-        captured_while_live = any(op[0] in ("capture", "capture_same") for ops in prog for op in ops)
+        captured_while_live = any(op[0] in ("capture", "capture_same", "batch_capture") for ops in prog for op in ops)
         tall = last is not None and len(last) >= console.size.height
         if not tall and (flat != file_marks or (last is not None and krows_screen != last)):
             mech = "screen-differs-from-file-order-plus-last-frame:%s" % display
@@ -588,7 +596,7 @@ def taint(events, writes):
     print/log/capture operation's window [hook call, file write] of a thread that did not hold the live lock."""
     # only windows opened by print / log / capture operations are the known mechanism: refresh, update, start and
     # stop are documented to run under the live lock, so an unlocked window there is a different defect
-    hooks = [(s, t) for s, t, k, d in events if k == "hook" and d[0] is False and d[1] in ("print", "log", "capture", "print_same", "capture_same")]
+    hooks = [(s, t) for s, t, k, d in events if k == "hook" and d[0] is False and d[1] in ("print", "log", "capture", "print_same", "capture_same", "batch_capture")]
     renders = [(s, t) for s, t, k, d in events if k == "frame_render"]
     for hs, ht in hooks:
         # the write of that thread that follows the hook
